@@ -85,6 +85,18 @@ PROPS["C04"] = dict(
                "checks page sizes, that a missing LastEvaluatedKey coincides with completion, finiteness, and that the concatenated pages equal "
                "the client's own unpaginated answer (minus the deleted item), which itself is judged against the specification.",
 )
+PROPS["C18"] = dict(
+    title="table lifecycle and metadata stay coherent",
+    quick=[G("M_LIFE", cfg="M_LIFE_a"), G("M_LIFE", cfg="M_LIFE_b")],
+    thorough=[G("M_LIFE", cfg="M_LIFE_t")],
+    own=[parts("Outcome", "ErrClass", "Data", "Base", "Index", "IdxCount", "IdxDesc", "Desc", "Catalog", "NoCrash")],
+    design_ref="DESIGN.md 6 C18",
+    level_text="Every interleaving of create (helper and full CreateTable, valid and invalid configurations, both billing modes, global and "
+               "local indexes), delete, clear, add/delete index, describe and data writes/reads over two clients and two table names is "
+               "enumerated by TLC within the bounds and replayed; TLC judges error classes (ResourceInUse / ResourceNotFound), descriptions, "
+               "and after every step the full observation of every table of BOTH clients, which is how table and client isolation, "
+               "clearing and re-creation are decided.",
+)
 
 # properties deliberately not claimed, with the reason (none so far: unbuilt ones get a work-in-progress reason)
 NOT_CLAIMED = {}
